@@ -135,9 +135,14 @@ type Tap struct {
 	mu    sync.Mutex
 	total int
 	hits  []string // descriptions of secret markers seen
+	frags []string // descriptions of fragment markers seen
 }
 
 var secretMark = []byte("ZQS") // every secret value contains it; nothing else does
+
+// fragMark marks the NON-credential parts of a structured secret (names, paths inside a
+// kubeconfig); lower case too, host names and URLs get lowered on their way into error texts
+var fragMark = []byte("zqf")
 
 func (t *Tap) feed(where string, b []byte) {
 	t.mu.Lock()
@@ -154,6 +159,25 @@ func (t *Tap) feed(where string, b []byte) {
 		}
 		t.hits = append(t.hits, fmt.Sprintf("%s: …%s", where, string(b[lo:end])))
 	}
+	if i := bytes.Index(bytes.ToLower(b), fragMark); i >= 0 {
+		end := i + 16
+		if end > len(b) {
+			end = len(b)
+		}
+		lo := i - 80
+		if lo < 0 {
+			lo = 0
+		}
+		t.frags = append(t.frags, fmt.Sprintf("%s: …%s", where, string(b[lo:end])))
+	}
+}
+
+func (t *Tap) takeFrags() []string {
+	t.mu.Lock()
+	defer t.mu.Unlock()
+	h := t.frags
+	t.frags = nil
+	return h
 }
 
 func (t *Tap) takeHits() []string {
@@ -177,7 +201,7 @@ func dial(tap *Tap, sock, where string) (*Sess, error) {
 		return nil, err
 	}
 	s := &Sess{c: c, r: bufio.NewReaderSize(c, 1<<16), tap: tap, where: where}
-	if _, err := s.line(5 * time.Second); err != nil {
+	if _, err := s.line(20 * time.Second); err != nil {
 		c.Close()
 		return nil, fmt.Errorf("no greeting: %w", err)
 	}
